@@ -131,6 +131,8 @@ def run_segy(case, ctx):
                 compared += 1
         with SgzReader(out) as r:
             G = conv.grid_fields(src)
+            # the accessors are also mixed on ONE reader: a regenerated header, then every stored array, then headers again
+            cmp_header(r.gen_trace_header(n - 1), want_of(n - 1), 'gen_trace_header(%d) before the tracefield reads, mode %s geom %s' % (n - 1, mode, geom), bad, 'gen_trace_header')
             for k in sorted(set(int(k) for k in r.stored_header_keys)):
                 got = np.asarray(r.get_tracefield_values(k)).reshape(-1)
                 want = G[k] if mode != 'strip' else np.zeros_like(G[k])
@@ -139,6 +141,10 @@ def run_segy(case, ctx):
                     bad.append({'sig': 'get_tracefield_values:differs', 'detail': 'field %d mode %s geom %s n=%d: %d value(s) differ'
                                 % (k, mode, geom, n, int((got != want).sum()) if got.shape == want.shape else -1)})
                     break
+            if not bad:
+                for t in (0, n // 2, n - 1):
+                    cmp_header(r.gen_trace_header(t), want_of(t), 'gen_trace_header(%d) after the tracefield reads, mode %s geom %s' % (t, mode, geom), bad, 'gen_trace_header-after-tracefields')
+                    compared += 1
             # every field that varies in the source must be retrievable as an array
             if mode in ('thorough', 'exhaustive'):
                 for k in KEYS:
